@@ -54,7 +54,8 @@ pub fn with_transport<W: WithT>(kind: TK, dtype: u32, cfg_len: usize, f: W) -> R
             Ok(f.call(t))
         }
         TK::Pci => {
-            pci_dev::install_std(dtype, cfg_len as u32, true);
+            // a device without configuration fields has no device-configuration capability
+            pci_dev::install_std(dtype, cfg_len as u32, cfg_len >= 4);
             let t = pci_dev::std_transport().map_err(|e| format!("PCI transport construction failed: {:?}", e))?;
             crate::world::with(|w| {
                 w.bus.trace.clear();
